@@ -54,7 +54,9 @@ BaseU == <<
   Arr(<<MapV(<< <<Bb, IntV(5)>> >>)>>),
   S(<<97, 98, 99>>),
   IntV(5), Nil, Bool(FALSE), Flt(5, 2),
-  MapV(<< <<B_first, S(<<102>>)>>, <<Cc, Nil>> >>)
+  MapV(<< <<B_first, S(<<102>>)>>, <<Cc, Nil>> >>),
+  \* keys named like the built-in properties, bound to nil: present, so no fallback
+  MapV(<< <<Bb, IntV(1)>>, <<B_size, Nil>>, <<Xx, Nil>> >>)
 >>
 Paths(b) == <<
   P(b, Bb), Ix(b, Lit(S(Bb))), P(b, B_size), P(b, B_first), P(b, B_last),
